@@ -12,9 +12,9 @@ CONSTANTS MaxN, ExportNs, DevNs, ExportOn    \* sizes exported plain / with a de
 
 DefaultParams == [pctN |-> 3000, pctF |-> 7000, agree |-> 6500, maxc |-> 100]   \* config/consensus.go
 
-QuickNs    == 0..12 \cup {14, 15, 16, 25, 45, 85, 100, 130}      \* 15, 45, 85: float rounding ties of 0.7 * n
+QuickNs    == 0..12 \cup {15, 16, 45, 85, 150}   \* 15, 45, 85: float rounding ties of 0.7 * n; 150: the committee cap (final)
 QuickDevNs == 1..10
-ThoroughNs == 0..MaxN
+ThoroughNs == 0..130 \cup {142, 143, 150}           \* 143 * 0.7 is the first size above the cap of 100
 ThoroughDevNs == 0..24 \cup {45, 85, 100}
 \* the deviating vote: a byte / malleated / other-flag duplicate of a signer, a discriminated member, a stranger,
 \* an approved member over another round / step / hash / parent, an unrecoverable signature
